@@ -249,6 +249,28 @@ def e2e_run(case, observe=None, save_dir=None):
         ps.update_sequence_history = ush
         ps.set_load_and_cost = slc
     times = np.array([float(dt * k) for k in range(1, n_inc + 1)])
+    iters = case.get("iters", 1)
+    if iters > 1:
+        # several Monte Carlo iterations on the same object, through the simulator's own run_iteration (reset_system in between)
+        import contextlib, io
+        for it in range(1, iters + 1):
+            if observe is not None:
+                orig_reset = None
+            with contextlib.redirect_stdout(io.StringIO()):
+                sim_run = sim.run_iteration
+                # observe the state right after the reset, before the first increment of the iteration
+                orig_ish = ps.initialize_sequence_history
+                def ish(_orig=orig_ish, _it=it):
+                    _orig()
+                    if observe is not None:
+                        observe(ps, "iteration_start", {"it": _it})
+                ps.initialize_sequence_history = ish
+                try:
+                    sim_run(it=it, start_time=TimeStamp(), time_array=times, time_unit=TimeUnit.HOUR, save_dir=None,
+                            save_flag=False, random_seed=0, callback=cb)
+                finally:
+                    ps.initialize_sequence_history = orig_ish
+        return ps, sim
     sim.run_sequence(TimeStamp(), times, TimeUnit.HOUR, cb, case.get("save", True))
     if save_dir is not None:
         from relsad.simulation.sequence.history import save_sequence_history
@@ -256,7 +278,7 @@ def e2e_run(case, observe=None, save_dir=None):
     return ps, sim
 
 
-def gen_e2e(rng, n, kinds=("line", "trafo")):
+def gen_e2e(rng, n, kinds=("line", "trafo"), repeat=False):
     cases = []
     for _ in range(n):
         spec = net.rand_feeder_spec(rng, max_lines=5, allow_mg=True)
@@ -276,8 +298,18 @@ def gen_e2e(rng, n, kinds=("line", "trafo")):
         n_inc = rng.choice([8, 10, 12])
         dt = rng.choice([F(1), F(1, 2)])
         case = {"kind": "e2e", "spec": spec, "n_inc": n_inc, "dt": str(dt)}
+        repeated = repeat and len(cases) % 4 == 3
+        if repeated and not spec.get("mg"):
+            spec["mg"] = {"host": [0, rng.randrange(len(spec["feeders"][0]["parent"]))], "mode": rng.choice(["survival", "full", "limited"]),
+                          "discon": rng.random() < 0.5, "n": 2, "battery": {"p": "1", "q": "1", "e": "2", "smin": "1/10", "smax": "1", "eta": "1"}}
         ps = net.build(dict(spec, exact=False))
         case["faults"] = rand_faults(rng, ps, n_inc, kinds)
+        if repeated:
+            # targeted: two or three Monte Carlo iterations on the same object (the simulator's run_iteration, reset in between),
+            # with a fault inside the microgrid so that the microgrid's own accumulators are used in every iteration
+            case["iters"] = rng.choice([2, 3])
+            mgl = [l.name for l in ps.lines if l.name.startswith("ML")]
+            case["faults"].setdefault(str(rng.randint(1, 3)), []).append(["line", rng.choice(mgl), "3"])
         cases.append(case)
     return cases
 
